@@ -1,6 +1,7 @@
 import RedisVerif.Props.C06Heal
 import RedisVerif.Props.C19
 import RedisVerif.Lemmas.SimAcc
+import RedisVerif.Lemmas.SimQuiet
 
 /-!
 # C06 — no loss ⇒ delivered ⇒ converged, broadcast AND selective gossip (∘ C19)
@@ -114,6 +115,49 @@ theorem sim_calm_converges_among (H : AE.Hasher) (cfg : Cfg) (n : Nat) (causal :
   intro i hi j hj ni nj hni hnj
   exact sim_reads_agree_of_agree H cfg n causal routers autoAE evs i j ni nj hni hnj k
     (hag i hi j hj ni.ps.sh nj.ps.sh (abs_nodes_get _ i ni hni) (abs_nodes_get _ j nj hnj))
+
+/-! ## delay and reordering alone: two rounds hand everything over -/
+
+theorem calmRun_append (H : AE.Hasher) (cfg : Cfg) (evs1 evs2 : List SEv) : ∀ (c : Sim),
+    CalmRun H cfg c evs1 → CalmRun H cfg (c.run H cfg evs1) evs2 → CalmRun H cfg c (evs1 ++ evs2) := by
+  induction evs1 with
+  | nil => intro c _ h2; exact h2
+  | cons e evs ih =>
+    intro c h1 h2
+    exact ⟨h1.1, ih _ h1.2 (by simpa [Sim.run] using h2)⟩
+
+/-- **no loss: ANY calm history followed by `converge(2)`** (`advance D; gossip_round` twice, delays
+    ≤ `D`, no packet lost, no partition in place) **⇒ the covered replicas converge and answer `GET`
+    alike** — the queue-empty / outbox-empty hypotheses of `sim_calm_converges_among` are
+    discharged: whatever was delayed or reordered before, two rounds hand everything over.
+    `hdue` (decidable): nothing in the queue is due later than `D` ms from now. -/
+theorem sim_converge2_converges_among (H : AE.Hasher) (cfg : Cfg) (n : Nat) (causal : Bool)
+    (routers : List (Option Gossip.Router)) (autoAE : Bool) (evs : List SEv) (D : Nat) (o1 o2 : List (Bool × Nat))
+    (hD : 1 ≤ D) (hcalm : CalmRun H cfg (Sim.init n causal routers autoAE) evs)
+    (hparts : ((Sim.init n causal routers autoAE).run H cfg evs).parts = [])
+    (hdue : ∀ f ∈ ((Sim.init n causal routers autoAE).run H cfg evs).queue,
+      f.due ≤ ((Sim.init n causal routers autoAE).run H cfg evs).now + D)
+    (ho1 : ∀ p ∈ o1, p.1 = false ∧ p.2 ≤ D) (ho2 : ∀ p ∈ o2, p.1 = false)
+    (k : Nat) (S : List Nat) (hcov : Covers routers n S k) :
+    AgreeAmong ((Sim.init n causal routers autoAE).run H cfg (evs ++ quiesce D o1 o2)).abs.base S k ∧
+    ∀ i ∈ S, ∀ j ∈ S, ∀ (ni nj : SNode),
+      ((Sim.init n causal routers autoAE).run H cfg (evs ++ quiesce D o1 o2)).nodes[i]? = some ni →
+      ((Sim.init n causal routers autoAE).run H cfg (evs ++ quiesce D o1 o2)).nodes[j]? = some nj →
+      NMap.get ni.kv k = NMap.get nj.kv k := by
+  have hrun : (Sim.init n causal routers autoAE).run H cfg (evs ++ quiesce D o1 o2) =
+      ((Sim.init n causal routers autoAE).run H cfg evs).run H cfg (quiesce D o1 o2) := by
+    simp [Sim.run, List.foldl_append]
+  obtain ⟨hp, hq⟩ := quiesce_quiet H cfg ((Sim.init n causal routers autoAE).run H cfg evs) D o1 o2 hD hparts hdue
+    (fun p hp => (ho1 p hp).2)
+  -- the two rounds are calm
+  have hcalm2 : CalmRun H cfg ((Sim.init n causal routers autoAE).run H cfg evs) (quiesce D o1 o2) := by
+    have g1 := gossip_round_due H cfg (((Sim.init n causal routers autoAE).run H cfg evs).step H cfg (.advance D)) o1 D hD
+      hparts hdue (fun p hp => (ho1 p hp).2)
+    refine ⟨trivial, ⟨hparts, fun p hp => (ho1 p hp).1⟩, trivial, ⟨?_, ho2⟩, trivial⟩
+    exact g1.2.2.2
+  have hall := calmRun_append H cfg evs (quiesce D o1 o2) _ hcalm hcalm2
+  rw [← hrun] at hp hq
+  exact sim_calm_converges_among H cfg n causal routers autoAE (evs ++ quiesce D o1 o2) hall hq hp k S hcov
 
 /-! ## selective gossip: the routing tables are the ring's (C19) -/
 
